@@ -325,14 +325,14 @@ class MapModel(ContainerModel):
         if name in ('emplace', 'try_emplace') and len(args) >= 1:
             k = fe.expr(args[0])
             v = self.mk_value(fe, args[1:], self.val)
-            return '%s_emplace(%s, %s, %s)' % (c, pb, k, v)
+            return self.ins_result(fe, node, pb, '%s_emplace(%s, %s, %s)' % (c, pb, k, v))
         if name == 'insert' and len(args) == 1:
             at = fe.ty(args[0]).strip_ref()
             e = fe.expr(args[0])
             tmp = fe.new_tmp(self.pair.ctype)
-            return '(%s = %s, %s_emplace(%s, %s.first, %s.second))' % (tmp, e, c, pb, tmp, tmp)
+            return self.ins_result(fe, node, pb, '(%s = %s, %s_emplace(%s, %s.first, %s.second))' % (tmp, e, c, pb, tmp, tmp))
         if name == 'insert_or_assign' and len(args) == 2:
-            return '%s_insert_or_assign(%s, %s, %s)' % (c, pb, fe.expr(args[0]), fe.expr(args[1]))
+            return self.ins_result(fe, node, pb, '%s_insert_or_assign(%s, %s, %s)' % (c, pb, fe.expr(args[0]), fe.expr(args[1])))
         if name == 'erase' and len(args) == 1:
             at = fe.ty(args[0]).strip_ref()
             m = fe.em.models.lookup(fe.em, at)
@@ -340,6 +340,24 @@ class MapModel(ContainerModel):
                 return '%s_erase_it(%s, %s)' % (c, pb, fe.expr(args[0]))
             return '%s_erase_key(%s, %s)' % (c, pb, fe.expr(args[0]))
         return Model.member(self, fe, b, name, args, node)
+
+
+def _map_ins_result(self, fe, node, pb, call):
+    """emplace / insert / insert_or_assign return pair<iterator, bool> (was a new element inserted?): built from the model's
+    element pointer and the growth of the map, when the source uses the result"""
+    if not fe.result_used(node):
+        return call
+    try:
+        rt = fe.ty(node).strip_ref()
+        pm = fe.em.models.lookup(fe.em, rt) if rt.kind == 'name' and rt.name == 'std::pair' else None
+    except Exception:
+        pm = None
+    if pm is not None and isinstance(pm, PairModel):
+        return '({ U_t xt_n0 = (%s)->n; %s *xt_ip = %s; %s_mk(xt_ip, (%s)->n != xt_n0); })' % (pb, self.pair.ctype, call, pm.cname, pb)
+    return call
+
+
+MapModel.ins_result = _map_ins_result
 
 
 class SetModel(ContainerModel):
@@ -447,6 +465,16 @@ class Registry:
             return 'uset_' + em.abbr(a[0])
         if n in ('std::_Rb_tree_iterator', 'std::_Rb_tree_const_iterator', '__gnu_cxx::__normal_iterator', 'std::__detail::_Node_iterator',
                  'std::__detail::_Node_const_iterator', 'std::__detail::_Node_iterator_base') or (ty.params and n.split('::')[-1] in ('iterator', 'const_iterator')):
+            # iterators are pointers to the element: the abbreviation carries the element so that pair<iterator, bool> of different
+            # containers are different structs
+            try:
+                if a and not (ty.params and n.split('::')[-1] in ('iterator', 'const_iterator')):
+                    a0 = self._unconst(a[0])
+                    if a0.kind == 'ptr':
+                        a0 = self._unconst(a0.inner)
+                    return 'it_' + em.abbr(a0)
+            except Exception:
+                pass
             return 'it'
         return None
 
